@@ -26,6 +26,21 @@ func chunkObs(f func() (string, error)) string {
 // C11: GetChunk / RawMessage.Chunk against the option map the specification parse finds.
 func C11(c *core.Ctx) {
 	r := c.Rng
+	// corpus: values encoded with an ext32 header (0xc9) before the chunk key.  msgp's stream
+	// Skip reports such a header as truncated (known finding D18): unknown option value,
+	// value inside the record, ext32-encoded EventTime.
+	for _, h := range []string{
+		"94a174058082a178c90000000105aaa56368756e6ba163",
+		"94a1740581a178c90000000109aa81a56368756e6ba163",
+		"94a174c90000000800000000050000000180" + "81a56368756e6ba163",
+	} {
+		enc := unhx(h)
+		obs := chunkObs(func() (string, error) { return protocol.GetChunk(enc) })
+		c.Eval()
+		c.Hist("corpus ext32 -> " + obs[:2])
+		c.Corr("c11-getchunk", "get_chunk", []string{hx(enc)}, obs)
+		c.Judge("c11-ext32-skip", "judge_chunk", []string{hx(enc), obs}, "GetChunk on a well-formed message holding an ext32-encoded value before the chunk key")
+	}
 	n := c.N(400, 20000)
 	for i := 0; i < n; i++ {
 		mode := gen.Modes[r.Intn(4)]
